@@ -62,6 +62,10 @@ def option_sets():
     S.append(("dgrep-le-dt", "dgrep", ["<=2012-06-30T23:59:59"], ("dt", "junk")))
     S.append(("dgrep-eq", "dgrep", ["=2012-02-29"], ("d", "junk")))
     S.append(("dtest-like", "dgrep", ["-v", "<2000-01-01"], ("d", "junk")))
+    # the reference value on the command line, the durations as stdin lines
+    S.append(("dadd-ref-durs", "dadd", ["2012-03-01"], ("dur",)))
+    S.append(("dadd-ref-dt-durs", "dadd", ["2012-01-31T12:00:00"], ("dur",)))
+    S.append(("dadd-ref-durs-f", "dadd", ["-f", "%a %F", "2012-02-29"], ("dur",)))
     return S
 
 
@@ -75,6 +79,11 @@ def pool_for(kinds, rng):
         out += POOL_JUNK
     if "day" in kinds:
         out += ["%02d" % d for d in range(1, 32)] + ["00", "32", "x"]
+    if "dur" in kinds:
+        # durations: plain, compound, signed, and lines that start like a duration but are none
+        out += ["1d", "3d", "-2d", "+1w", "1mo", "-1y", "2b", "1d2h", "1mo1d", "90m", "36h", "+0d", "1y2mo3d", "-1mo-1d",
+                "2d x", "1w ", "3mo junk", "1d1", "d", "x", "1x", "--1d", "5", "1d 1d", "1q", "-3b", "86400s", "1h30m15s"]
+        return out
     # some random ones
     for _ in range(25):
         o = rng.randrange(cal.ORD_MIN, cal.ORD_MAX - 700)
@@ -117,7 +126,7 @@ def tool_task(task):
     ref_args = {}
     sed = "-S" in args
     for h in range(nhist):
-        kind = ["perm", "prefix-junk", "long", "dups", "reverse", "args"][h % 6]
+        kind = ["perm", "prefix-junk", "long", "dups", "reverse", "args", "crlf-mix"][h % 7]
         if kind == "perm":
             hist = rng.sample(vals, len(vals))
         elif kind == "prefix-junk":
@@ -130,6 +139,8 @@ def tool_task(task):
             hist = [a] * 5 + [b] * 5 + [a, b] * 10
         elif kind == "reverse":
             hist = list(reversed(vals))
+        elif kind == "crlf-mix":
+            hist = rng.sample(vals, len(vals))
         else:
             hist = rng.sample(vals, min(len(vals), 14))
         if kind == "args" and tool == "dconv" and not sed:
@@ -163,6 +174,11 @@ def tool_task(task):
                 argv = [str(bindir / tool)] + opts + ["--"] + hist + [spec]
             r = run(argv, cpu=10, wall=60)
             mode = "args"
+        elif kind == "crlf-mix":
+            # the same values with CRLF and LF line ends mixed: the end of one line must not leak into the next
+            argv = [str(bindir / tool)] + args
+            r = run(argv, stdin="".join(v + rng.choice(["\n", "\r\n"]) for v in hist).encode(), cpu=10, wall=60)
+            mode = "lines"
         else:
             argv = [str(bindir / tool)] + args
             r = run(argv, stdin=("\n".join(hist) + "\n").encode(), cpu=10, wall=60)
@@ -374,7 +390,8 @@ def main(tier, seed):
                 "%d tool/option sets (dconv, dadd, dround, ddiff, dgrep; plain, -f, -S, --zone, --from-zone, -i/--base), "
                 "pool of ~70-100 values each (all calendars, fix-up dates, DST-edge date-times, unparsable lines), "
                 "histories: permutations, junk prefixes, >255 and >512 lines, duplicates, reversal, command-line "
-                "arguments; zones: %d zone images x histories (random, alternating around a boundary, descending, "
+                "arguments, mixed CRLF/LF line ends; dadd with the reference on the command line and durations (valid, compound, "
+                "valid-prefix-plus-junk) as stdin lines; zones: %d zone images x histories (random, alternating around a boundary, descending, "
                 "negative-first, far-future-first, after zif_copy) of zif_local_time/zif_utc_time calls against the "
                 "fresh-handle answer; several zones in one run (dzone matrices and dconv --from-zone/--zone pairs, incl. "
                 "zone names that are prefixes of each other) against one-zone-per-run; compared with the "
